@@ -9,12 +9,12 @@ open Physis.Spec.HalfValue
 theorem halfToF32_injective (a b : UInt16) (ha : a &&& 0x7FFF ≤ 0x7C00) (hb : b &&& 0x7FFF ≤ 0x7C00)
     (h : halfToF32 a = halfToF32 b) : a = b := by
   simp only [halfToF32, halfHiBit] at h
-  bv_decide
+  bv_decide (timeout := 300)
 
 /-- sign bit preserved -/
 theorem halfToF32_sign (a : UInt16) : halfToF32 a >>> 31 = (a >>> 15).toUInt32 := by
   simp only [halfToF32, halfHiBit]
-  bv_decide
+  bv_decide (timeout := 300)
 
 /-- zero ↔ zero, infinity ↔ infinity, NaN ↔ NaN (exponent all ones, mantissa zero / non-zero) -/
 theorem halfToF32_classes (a : UInt16) :
@@ -22,24 +22,24 @@ theorem halfToF32_classes (a : UInt16) :
     ((halfToF32 a &&& 0x7FFFFFFF = 0x7F800000) ↔ (a &&& 0x7FFF = 0x7C00)) ∧
     ((halfToF32 a &&& 0x7FFFFFFF > 0x7F800000) ↔ (a &&& 0x7FFF > 0x7C00)) := by
   simp only [halfToF32, halfHiBit]
-  refine ⟨?_, ?_, ?_⟩ <;> bv_decide
+  refine ⟨?_, ?_, ?_⟩ <;> bv_decide (timeout := 300)
 
 /-- order preserved on the magnitudes (finite, infinite): the widening is strictly monotone -/
 theorem halfToF32_monotone (a b : UInt16) (ha : a ≤ 0x7C00) (hb : b ≤ 0x7C00) (h : a < b) :
     halfToF32 a < halfToF32 b := by
   simp only [halfToF32, halfHiBit]
-  bv_decide
+  bv_decide (timeout := 300)
 
 /-- every result is exactly representable back: the low 13 mantissa bits are zero -/
 theorem halfToF32_low_bits (a : UInt16) : halfToF32 a &&& 0x1FFF = 0 := by
   simp only [halfToF32, halfHiBit]
-  bv_decide
+  bv_decide (timeout := 300)
 
 /-- widening is exact: for every finite half, the binary32 result denotes the same real number
 (`|v|·2^149 = |v|·2^24 · 2^125`) and is itself finite -/
 theorem halfToF32_value (h : UInt16) (hfin : (h >>> 10) &&& 0x1F ≠ 0x1F) :
     f32Mag (halfToF32 h) = halfMag h <<< 125 ∧ (halfToF32 h >>> 23) &&& 0xFF ≠ 0xFF := by
   simp only [f32Mag, halfMag, halfToF32, halfHiBit]
-  constructor <;> bv_decide
+  constructor <;> bv_decide (timeout := 300)
 
 end Physis
